@@ -495,6 +495,15 @@ def extract_fn(src, selector, spec):
                 ed.rep(t.start, toks[match[k + 2]].end, 'String::new()')
                 k = match[k + 2] + 1
                 continue
+            # R10: `X.iter().cloned()` -> `vx_iter_cloned(&X)` (external_body wrapper whose body is
+            # the original expression; assumed contract: yields the elements of X)
+            if t.kind == 'ident' and toks[k + 1].text == '.' and toks[k + 2].text == 'iter' and \
+               toks[k + 3].text == '(' and toks[k + 4].text == ')' and toks[k + 5].text == '.' and \
+               toks[k + 6].text == 'cloned' and toks[k + 7].text == '(' and toks[k + 8].text == ')' and \
+               not (toks[k - 1].kind == 'punct' and toks[k - 1].text in ('.', '::')):
+                ed.rep(t.start, toks[k + 8].end, 'vx_iter_cloned(&%s)' % t.text)
+                k += 9
+                continue
             if t.kind == 'ident' and t.text in ('write', 'writeln') and toks[k + 1].text == '!' and toks[k + 2].kind == 'open':
                 c = match[k + 2]
                 if toks[c + 1].text == '?' and toks[c + 2].text == ';':
